@@ -95,6 +95,25 @@ void World::CheckOrdering(const InvRecord& r) {
 
 void World::CheckFailures(const InvRecord& r) {
   if (r.plan.dry || !r.plan.tool.empty()) return;
+  // a needed source file is missing: an error before anything is started
+  if (!missing_source.empty() && r.res.end == ProcResult::kExit && !r.fault_fired && !r.interrupted) {
+    bool needed = false;
+    for (int id : Closure(EffectiveTargets(r.plan), true)) {
+      const Stmt& s = sc.stmts[id];
+      for (auto* v : {&s.ins, &s.imp_ins}) if (std::find(v->begin(), v->end(), missing_source) != v->end()) needed = true;
+    }
+    if (needed) {
+      stats->n["missing_source_needed"]++;
+      stats->nontrivial["C05"] = true;
+      std::string all = r.res.err + r.res.out;
+      // (another error may legitimately come first - an unknown target, say - as long as nothing is started)
+      if (r.res.exit_code == 0 || (all.find("missing and no known rule to make it") == std::string::npos && !r.spawns.empty()))
+        Report("C05", "missing_source_ignored", "source " + missing_source + " is missing and a needed statement names it as an input, but ninja " + (r.res.exit_code == 0 ? "exited with status 0" : "did not say so"));
+      else if (!r.spawns.empty())
+        Report("C05", "missing_source_ignored", "source " + missing_source + " is missing; ninja reported it only after starting " + S((long)r.spawns.size()) + " command(s)");
+    }
+    return;
+  }
   std::vector<const SpawnRec*> failed;
   for (const SpawnRec& x : r.spawns) if (x.reap_seq && x.reap_status != 0) failed.push_back(&x);
   std::sort(failed.begin(), failed.end(), [](const SpawnRec* a, const SpawnRec* b) { return a->reap_seq < b->reap_seq; });
